@@ -52,6 +52,7 @@ func __ghostat(name string, f func() int)                {}
 func __progress(label string, f func() bool)             {}
 func __assumedensures(label string, f func() bool)       {}
 func __iterstart[T any](x T) T                           { return x }
+func __atcall[T any](x T) T                              { return x }
 func __mapcontent(m any) any                             { return m }
 func __dynpreserves(locs ...any)                         {}
 func __forallkeys[K comparable, V any](m map[K]V, f func(K) bool) bool { return true }
